@@ -6,20 +6,19 @@
 # Evidence of such a run is written to a scratch file, not to /verif/evidence.
 set -u
 WT=$(readlink -f "$1"); ID=$2; TIER=${3:-quick}
-H=/tmp/h2
+SFX=${TRY_SUFFIX:-}; H=/tmp/h2$SFX
 mkdir -p $H
 rsync -a --delete --exclude target /verif/harness/ $H/
 sed -i "s|/repo/weechess-core|$WT/weechess-core|; s|/repo/weechess-engine|$WT/weechess-engine|" $H/Cargo.toml
-sed -i "s|/verif/.target/harness|/tmp/h2-target|" $H/.cargo/config.toml
+sed -i "s|/verif/.target/harness|/tmp/h2$SFX-target|" $H/.cargo/config.toml
 (cd $H && cargo build --release 2>&1 | grep -E "^error" -A8 | head -30)
 (cd $WT && RUSTFLAGS="--cfg weechess_verif" cargo build --release --offline -p weechess_cli --target-dir $WT/target-verif 2>&1 | grep -E "^error" -A8 | head -30)
 export VERIF_WEECHESS_BIN=$WT/target-verif/release/weechess
 export VERIF_PLAIN_BIN=/verif/.target/harness/plain/vcheck
-cp /verif/evidence/$ID.json /tmp/h2-evidence-backup.json 2>/dev/null
+export VERIF_EVIDENCE_DIR=/tmp/h2$SFX-evidence
 S=$(date +%s)
-OUT=$(VERIF_SEED=${VERIF_SEED:-0} timeout ${TRY_TIMEOUT:-1500} /tmp/h2-target/release/vcheck $ID $TIER 2>&1)
+OUT=$(VERIF_SEED=${VERIF_SEED:-0} timeout ${TRY_TIMEOUT:-1500} /tmp/h2$SFX-target/release/vcheck $ID $TIER 2>&1)
 RC=$?
 E=$(date +%s)
-cp /tmp/h2-evidence-backup.json /verif/evidence/$ID.json 2>/dev/null
 echo "== $ID exit=$RC time=$((E-S))s (worktree $WT)"
 echo "$OUT" | grep -E "violation in|^VIOLATION|HARNESS|^\[C" | cut -c1-500 | head -8
